@@ -389,7 +389,7 @@ def terminal_notifications(chk: Check) -> None:
 
 
 def listener_loop(chk: Check, rule: str) -> None:
-    """EventHelper.fire_event calls each listener once with the given arguments, looping over the listeners (a snapshot or the set itself) with each call inside the
+    """EventHelper.fire_event calls each listener once with the given arguments, looping over a snapshot of the listeners with each call inside the
     try that contains a listener's failure."""
     prog = chk.prog
     # listeners are each called once per event
@@ -397,15 +397,21 @@ def listener_loop(chk: Check, rule: str) -> None:
     loops = [n for n in ast.walk(eh.node) if isinstance(n, ast.For)]
     from ..rules import Resolver
     res_eh = Resolver(eh)
-    it_txt = res_eh.text(loops[0].iter) if loops else ''
-    ok = len(loops) == 1 and ('self.listeners' in it_txt or 'self._listeners' in it_txt)
+    it_e = res_eh.expand(loops[0].iter) if loops else None
+    LS = ('self.listeners', 'self._listeners')
+    # a SNAPSHOT of the listeners: a callback may add or remove listeners (one-shot listeners remove themselves, a terminating process drops them all), and a set
+    # that changes size while it is iterated raises RuntimeError out of the transition in progress
+    snap = (isinstance(it_e, ast.Call) and norm(it_e.func) in ('list', 'tuple', 'set', 'frozenset', 'sorted', 'copy.copy') and len(it_e.args) == 1 and norm(it_e.args[0]) in LS) or (
+        isinstance(it_e, ast.Call) and isinstance(it_e.func, ast.Attribute) and it_e.func.attr == 'copy' and not it_e.args and norm(it_e.func.value) in LS) or (
+        isinstance(it_e, (ast.List, ast.Tuple, ast.Set)) and len(it_e.elts) == 1 and isinstance(it_e.elts[0], ast.Starred) and norm(it_e.elts[0].value) in LS)
+    ok = len(loops) == 1 and bool(snap)
     calls = []
     for x in [y for l in loops for y in ast.walk(l) if isinstance(y, ast.Call)]:
         fx = res_eh.expand(x.func)
         if isinstance(fx, ast.Call) and norm(fx.func) == 'getattr' and fx.args and norm(fx.args[0]) == norm(loops[0].target):
             calls.append(x)
     ok = ok and len(calls) == 1 and [norm(a) for a in calls[0].args] == [f'*{eh.node.args.vararg.arg}']
-    chk.ob(rule, eh, bool(ok), 'every listener receives the event once with the given arguments', kind='listener-loop')
+    chk.ob(rule, eh, bool(ok), 'every listener registered when the event fires receives it once with the given arguments (the loop runs over a snapshot: callbacks may add or remove listeners)', kind='listener-loop')
 
 
 # ---------------------------------------------------------------------- 5. close once
@@ -555,6 +561,9 @@ def inflight_step_released(chk: Check, rule: str = 'FUT-wait-release') -> None:
                 for s_ in rel:
                     chk.ob(rule, s_.func, s_.guard in ('guarded', 'fresh'), f'the release on exit is {s_.guard} (on the normal way out of the state the future is already resolved: an unguarded write '
                            'raises InvalidStateError inside the transition)', node=s_.call, kind='exit-release-guarded')
+                    how = s_.call.func.attr if isinstance(s_.call, ast.Call) and isinstance(s_.call.func, ast.Attribute) else ''
+                    chk.ob(rule, s_.func, how != 'cancel', f'the release on exit is a {how or "write"}: a CANCELLED future raises asyncio.CancelledError in the step that awaits it -- a BaseException, '
+                           'which passes every handler of step() and leaves step_until_terminated() instead of letting it return', node=s_.call, kind='exit-release-not-cancel')
                 continue
             # otherwise every outside transition must know that no step is in flight, or interrupt the state first
             bad = []
